@@ -20,6 +20,7 @@ using namespace tulz;
 struct Obs {
     std::atomic<bool> dead{false};
     std::atomic<long> callsAfterDeath{0};
+    std::atomic<long> calls{0};
 };
 
 int main(int argc, char **argv) {
@@ -29,7 +30,7 @@ int main(int argc, char **argv) {
     auto key = RoutingKeyBuilder{"a", "b"}.build();
     auto other = RoutingKeyBuilder{"a", "c"}.build();
     std::atomic<bool> stop{false};
-    std::atomic<long> violations{0}, ops{0};
+    std::atomic<long> violations{0}, ops{0}, missed{0};
     std::atomic<int> delivering{0}, mutating{0};
 
     auto worker = [&](unsigned s) {
@@ -39,12 +40,19 @@ int main(int argc, char **argv) {
             x = x * 1664525u + 1013904223u;
             if (mine.size() < 8 && (x >> 16) % 2 == 0) {
                 auto o = std::make_shared<Obs>();
-                mine.emplace_back(router.subscribe((x >> 20) % 4 ? key : other, [o, &violations, &delivering, &mutating] {
+                const bool onKey = (x >> 20) % 4 != 0;
+                mine.emplace_back(router.subscribe(onKey ? key : other, [o, &violations, &delivering, &mutating] {
+                    o->calls++;
                     delivering++;
                     if (o->dead.load()) { o->callsAfterDeath++; violations++; }
                     if (mutating.load() != 0) violations++;
                     delivering--;
                 }), o);
+                // subscribe() has returned: a notify issued now (by this very thread) reaches the new observer, whatever the
+                // other notifiers are doing at the same time
+                long before = o->calls.load();
+                router.notify(onKey ? key : other);
+                if (o->calls.load() == before) missed++;
             } else if (!mine.empty()) {
                 auto &front = mine.front();
                 front.first->unsubscribe();
@@ -104,6 +112,10 @@ int main(int argc, char **argv) {
     if (violations.load() != 0) {
         std::printf("VIOLATION an observer was invoked after its unsubscribe() had returned (or during a mutation): %ld times in %ld operations\n",
                     violations.load(), ops.load());
+        return 1;
+    }
+    if (missed.load() != 0) {
+        std::printf("VIOLATION a notify issued after subscribe() had returned did not reach the new observer: %ld times in %ld operations\n", missed.load(), ops.load());
         return 1;
     }
     if (staleDepth.load() != 0 || staleExists.load() != 0) {
